@@ -114,8 +114,10 @@ CLAIMS = {
        "converted under `path/i` with i its 0-based position, results appended in order; a map entry's value is converted under "
        "`path/<its key>` and stored under that key, the key record carries the key's own location; the map carries the map's location; "
        "a BadValue or a failing recursive conversion is an error.",
-  note="This is the path/position ATTACHMENT step only. NOT covered: the string built by Path::extend_str (Kani harnesses exist but do "
-       "not terminate in the quick budget: tier=probe), libyaml marks -> Location, that comparison results and the report builder keep "
+  note="Plus Kani/CBMC on the pointer string itself: Path::extend_str on pointers of 0..2 bytes and keys of 0..2 bytes (symbolic "
+       "ASCII, any line/col) returns pointer + '/' + key byte for byte - also for the EMPTY key - and keeps the position; "
+       "with_location replaces the position and keeps the pointer. This is the path/position ATTACHMENT step only. NOT covered: "
+       "extend_usize's number formatting, longer / non-ASCII keys, libyaml marks -> Location, that comparison results and the report builder keep "
        "the values' paths (operators.rs clones, eval_context.rs report builder), unresolved `traversed_to` / `remaining_query`. No Kani "
        "harness serves this property in the quick tier.",
   design="0b/C10"),
@@ -202,7 +204,7 @@ CLAIMS = {
   design="4/C18"),
 }
 
-MIR_ONLY = {"C10", "C11", "C12", "C15"}
+MIR_ONLY = {"C11", "C12", "C15"}
 
 NA = {
  "C05": "needs fresh hash seeds/processes; symbolic SipHash keys through hashbrown and the serde/console writers are beyond CBMC (a HashMap with unknown keys timed out at 10 min on two inserts)",
